@@ -39,6 +39,8 @@ pub struct Universe {
     /// (import name, kind) pairs not generated in-process because they are known to abort
     /// the process (stack overflow); they are run in supervised subprocesses instead
     pub isolated_imports: Vec<(String, usize)>,
+    /// keep the history of every explored (non-violating) state in `Stats::histories`
+    pub collect_histories: bool,
 }
 
 impl Universe {
@@ -87,6 +89,7 @@ impl Universe {
             dependency_imports: BTreeSet::new(),
             import_kind_iface_id: vec![],
             isolated_imports: vec![],
+            collect_histories: false,
         }
     }
 
@@ -822,6 +825,7 @@ pub struct Stats {
     pub levels: Vec<(usize, usize)>,
     pub samples: Vec<Value>,
     pub cap_hit: bool,
+    pub histories: Vec<Vec<Op>>,
 }
 
 pub struct Found {
@@ -920,6 +924,9 @@ pub fn bfs(
             }
             stats.states += 1;
             if v.is_empty() {
+                if u.collect_histories {
+                    stats.histories.push(st.hist.clone());
+                }
                 frontier.push(st.hist.clone());
             } else {
                 for (fp, what) in v {
@@ -1032,6 +1039,9 @@ pub fn bfs(
             if v.is_empty() {
                 if stats.samples.len() < 3 && hist.len() >= 2 && (stats.states % 97 == 0 || level == depth) {
                     stats.samples.push(json!({"history": hist}));
+                }
+                if u.collect_histories {
+                    stats.histories.push(hist.clone());
                 }
                 next.push(hist);
             } else {
